@@ -202,6 +202,11 @@ def extract(repo, spec, contracts, mode, mutate=None):
         i = _find_seq(toks, it.body_open + 1, it.b, seq, 1)
         if i is None: raise UnitError(f"lost anchor: tail anchor `{spec['from']}` in {spec['item']}")
         a, b = i, it.b - 1
+        if spec.get("until"):
+            useq = [t.text for t in tokenize(spec["until"])[0]]
+            j = _find_seq(toks, i + 1, it.b, useq, 1)
+            if j is None: raise UnitError(f"lost anchor: end anchor `{spec['until']}` in {spec['item']}")
+            b = j - 1
     body = [t.copy() for t in toks[a:b+1]]
     ex.line_lo = body[0].line; ex.line_hi = body[-1].line
     ex.orig_hash = hashlib.sha256("\x00".join(t.text for t in body).encode()).hexdigest()[:16]
@@ -372,6 +377,8 @@ def build(unit_dir, repo, mode="verify", mutate=None):
             if mm: sp["block"] = mm.group(1)
             mm = re.search(r'from="([^"]+)"', rest)
             if mm: sp["from"] = mm.group(1)
+            mm = re.search(r'until="([^"]+)"', rest)
+            if mm: sp["until"] = mm.group(1)
             specs = [sp]
         else:
             raise UnitError(f"unknown template directive {d}")
